@@ -2,6 +2,7 @@ package rules
 
 import (
 	"fmt"
+	"go/ast"
 	"go/token"
 	"go/types"
 	"sort"
@@ -86,6 +87,47 @@ func init() {
 			for _, r := range e.Roots {
 				if !badRoot[r] {
 					c.Pass("root:"+kn(r), token.NoPos, "all mutexes and tokens released on every exit")
+				}
+			}
+			// premise of the lock-transfer wrappers: every cache option literal installs the pre and post
+			// hooks together (a pre hook that locks without a post hook that unlocks leaks the lock)
+			for _, rel := range []string{"", "internal/store", "internal/cache"} {
+				pk := c.P.Pkg(rel)
+				if pk == nil {
+					continue
+				}
+				for _, f := range pk.Syntax {
+					ast.Inspect(f, func(n ast.Node) bool {
+						cl, ok := n.(*ast.CompositeLit)
+						if !ok {
+							return true
+						}
+						tv, ok := pk.TypesInfo.Types[cl]
+						if !ok {
+							return true
+						}
+						nt := an.NamedOf(tv.Type)
+						if nt == nil || nt.Origin().Obj().Name() != "Opts" || nt.Origin().Obj().Pkg() == nil || nt.Origin().Obj().Pkg().Path() != c.P.Module+"/internal/cache" {
+							return true
+						}
+						pre, post := false, false
+						for _, el := range cl.Elts {
+							if kv, ok := el.(*ast.KeyValueExpr); ok {
+								if id, ok := kv.Key.(*ast.Ident); ok {
+									switch id.Name {
+									case "PrunePreFn":
+										pre = true
+									case "PrunePostFn":
+										post = true
+									}
+								}
+							}
+						}
+						if pre || post {
+							c.Check(pre == post, "hooks-paired:"+exprStringType(tv.Type), cl.Pos(), "cache options install the pre and post pruning hooks together: pre=%v post=%v", pre, post)
+						}
+						return true
+					})
 				}
 			}
 		}})
@@ -937,3 +979,5 @@ func runLockFlag(c *core.Ctx) {
 		c.Check(okv, key, rec.Pos, "%s", msg)
 	}
 }
+
+func exprStringType(t types.Type) string { return types.TypeString(t, func(p *types.Package) string { return p.Name() }) }
